@@ -4,15 +4,16 @@
  "standin": "B-drivers",
  "bound": "6 (quick) / 8 (thorough) small projects without externals x 3 (quick) / 16 (thorough) category subsets: Example.run_inline vs Example.run_pytest vs raw pytest subprocess (changed files as text) and run_inline's reported categories vs the headers of a `--inline-snapshot=<F>,report` session",
  "input": {
-  "project": "interleaved categories",
+  "project": "a fix whose only textual effect is trailing whitespace",
   "flags": [
    "create",
+   "fix",
    "trim",
    "update"
   ],
   "driver": "inline"
  },
- "detail": "C19: changed files of Example.run_inline differ from the raw pytest session: test_something.py: content differs\n--- run_inline test_something.py:\nfrom inline_snapshot import snapshot\n\n\ndef test_alt_list():\n    assert [0, 2, 29] == snapshot([1, 2, 3])\n\n\ndef test_alt_dict():\n    s = snapshot({\"b\": 0})\n    assert s[\"b\"] == 29\n\n--- raw pytest test_something.py:\nfrom inline_snapshot import snapshot\n\n\ndef test_alt_list():\n    assert [0, 2, 29] == snapshot([1, 2, 3])\n\n\ndef test_alt_dict():\n    s = snapshot({\"a\": 1, \"b\": 0})\n    assert s[\"b\"] == 29\n"
+ "detail": "C19: changed files of Example.run_inline differ from the raw pytest session: different sets of changed files: ['test_something.py'] vs []\n--- run_inline None:\nNone\n--- raw pytest None:\nNone"
 }
 """
 
@@ -85,8 +86,8 @@ ROOT = tempfile.mkdtemp()
 PROJ = os.path.join(ROOT, "proj")
 os.mkdir(PROJ)
 try:
-    FILES = {'test_something.py': 'from inline_snapshot import snapshot\n\n\ndef test_alt_list():\n    assert [0, 2, 29] == snapshot([1, 1 + 1, 3])\n\n\ndef test_alt_dict():\n    s = snapshot({"a": 1, "b": 0, "c": 3})\n    assert s["b"] == 29\n', 'pyproject.toml': '[tool.inline-snapshot]\n'}
-    FLAGS = ['--inline-snapshot=create,trim,update']
+    FILES = {'test_something.py': 'from inline_snapshot import snapshot\n\n\ndef test_trailing_blanks():\n    assert "first\\nsecond\\n" == snapshot("""\\\nfirst  \nsecond\n""")\n', 'pyproject.toml': '[tool.inline-snapshot]\n'}
+    FLAGS = ['--inline-snapshot=create,fix,trim,update']
     write(PROJ, FILES)
     r = session(PROJ, FLAGS)
     raw = {k: v.decode() for k, v in r['after'].items() if FILES.get(k) != v.decode()}
@@ -106,7 +107,7 @@ try:
     assert cp.value == raw, 'run_pytest differs from raw session'
     assert ci.value == raw, 'run_inline differs from raw session'
     P2 = os.path.join(ROOT, 'p2'); os.mkdir(P2); write(P2, FILES)
-    rep = session(P2, ['--inline-snapshot=' + ','.join(['create', 'trim', 'update', 'report'])])
+    rep = session(P2, ['--inline-snapshot=' + ','.join(['create', 'fix', 'trim', 'update', 'report'])])
     listed = sorted(c for c, h in {'create': 'Create snapshots', 'fix': 'Fix snapshots', 'trim': 'Trim snapshots', 'update': 'Update snapshots'}.items() if h in rep['out'])
     assert cc.value == listed, (cc.value, listed)
 finally:
